@@ -186,6 +186,13 @@ func (p *poller) Poll(timeoutMs int) (n int, err error) {
 			continue
 		}
 
+		if events&PollerEvent(syscall.EPOLLERR|syscall.EPOLLHUP) != 0 {
+			// The kernel reports errors and hang-ups regardless of the registered interest and, for a pipe whose
+			// other end was closed, without EPOLLIN/EPOLLOUT. Whatever is waiting on the descriptor can make
+			// progress now: the read or write issued by the handler reports the condition (EOF, EPIPE, ...).
+			events |= slot.Events
+		}
+
 		if events&slot.Events&PollerReadEvent == PollerReadEvent {
 			// TODO this errors should be reported
 			_ = p.DelRead(slot)
